@@ -1,4 +1,5 @@
 import Prom.Model.Conc
+import Prom.Model.HistMachine
 /- line-protocol handlers: areas `catom` (C01, C11), `cvec` (C10), `chist` (C02, C03) -/
 namespace Prom.Drv
 open Prom Prom.Conc
@@ -13,7 +14,7 @@ def concHandle (area : String) (fs : List String) : String :=
     else if area == "cvec" then vecReplay prog trace
     else
       let bounds := (((field fs "bounds").getD "").splitOn ",").map fun x => f64OfInt (parseIntArg x)
-      histReplay bounds prog trace
+      HM.histReplay bounds prog trace
   | _, _ => "bad-op"
 
 end Prom.Drv
